@@ -124,10 +124,36 @@ def positive_mask_var(func, flux):
     return None, None
 
 
+def _opaque_return(func):
+    """source of a call in the definition of the returned value that is not a numpy function (so the value is not a closed
+    array expression of this function), else None"""
+    rets = [n for n in U.walk_no_nested(func) if isinstance(n, ast.Return) and n.value is not None]
+    seen, todo = set(), [r.value for r in rets]
+    while todo:
+        e = todo.pop()
+        for n in ast.walk(e):
+            if isinstance(n, ast.Call):
+                nm = U.call_name(n) or ''
+                if not nm.startswith('np.') and nm not in ('abs', 'float', 'int', 'len', 'min', 'max'):
+                    return U.src(n)[:60]
+            if isinstance(n, ast.Name) and isinstance(n.ctx, ast.Load) and n.id not in seen:
+                seen.add(n.id)
+                for st in U.walk_no_nested(func):
+                    if isinstance(st, ast.Assign) and any(isinstance(t, ast.Name) and t.id == n.id for t in st.targets):
+                        todo.append(st.value)
+    return None
+
+
 def r71_r73(repo, ctx, q, func, fresh_required):
     fq = f'{CLS}.{q}'
     F, diffnode = face_array(func)
     if F is None:
+        # a verdict needs a closed expression for the returned rate: when it is produced by calls the normaliser could not
+        # resolve (objects carrying views of the face array, ...) the rule has nothing to compare and says so
+        opaque = _opaque_return(func)
+        if opaque:
+            ctx.undecided('R7.1', PB, fq, func, f'the returned rate is produced by {opaque}: no closed expression to compare with F[:-1] - F[1:]')
+            return None
         ctx.violation('R7.1', PB, fq, func, 'returned rate is not a first difference F[:-1] - F[1:] of one face array: exchange between neighbouring classes does not cancel',
                       construct=f'{fq}: no telescoping difference')
         return None
